@@ -89,11 +89,19 @@ macro_rules! vmcall {
 
 /// Asks the hypervisor to perform an IO read at the given physical address.
 pub fn hyp_io_read(address: u64, size: usize) -> u64 {
+    #[cfg(virtio_drivers_verif)]
+    if let Some(value) = crate::verif::hyp_io(false, address, size, 0) {
+        return value;
+    }
     vmcall!(PKVM_GHC_IOREAD, address, size as u64)
 }
 
 /// Asks the hypervisor to perform an IO write at the given physical address.
 pub fn hyp_io_write(address: u64, size: usize, data: u64) {
+    #[cfg(virtio_drivers_verif)]
+    if crate::verif::hyp_io(true, address, size, data).is_some() {
+        return;
+    }
     vmcall!(PKVM_GHC_IOWRITE, address, size as u64, data);
 }
 
